@@ -762,6 +762,7 @@ pub fn gen_params(rng: &mut crate::kernel::Rng, idx: u64) -> crate::genr::sam::S
         long_fields: rng.chance(1, 6),
         cram_safe: true,
         all_mapped: false,
+        all_unmapped: false,
     }
 }
 
